@@ -212,7 +212,18 @@ pub fn chaos_doc(r: &mut Rng) -> RDoc {
                 RObj::Dict(e)
             }
             Role::OutlineItem => {
-                let t = if r.chance(1, 6) { of_role(Role::Misc, r) } else { RObj::Str(b"Title".to_vec(), false) };
+                // titles: plain, or with a UTF-16BE / UTF-16LE / UTF-8 byte order mark followed by 0..8 arbitrary bytes
+                // (so odd lengths, lone surrogates and truncated sequences occur), or an object of another kind
+                let t = match r.below(8) {
+                    0 => of_role(Role::Misc, r),
+                    1 | 2 => RObj::Str(b"Title".to_vec(), false),
+                    _ => {
+                        let mut b: Vec<u8> = r.pick(&[&b""[..], b"\xfe\xff", b"\xfe\xff", b"\xff\xfe", b"\xef\xbb\xbf"]).to_vec();
+                        let n = r.usize_below(9);
+                        b.extend(r.bytes(n));
+                        RObj::Str(b, r.bool())
+                    }
+                };
                 put(r, "Title", t, &mut e);
                 let p = of_role(Role::OutlineItem, r);
                 put(r, "Parent", p, &mut e);
